@@ -189,10 +189,18 @@ func GenFileScript(r *Rng, hist map[string]int) []string {
 			if r.Chance(1, 3) || i == nrec-1 {
 				out = append(out, "F flush")
 				staging = false
+				if r.Chance(1, 2) {
+					out = append(out, "F getall") // reads by position between the writes (whatever a reader caches must follow the writer)
+					hist["op_reads_between_writes"]++
+				}
 			}
 		} else {
 			out = append(out, fmt.Sprintf("F put %d %s %s %d", typ, ktok, vtok, batch))
 			hist["op_put"]++
+			if r.Chance(1, 2) {
+				out = append(out, "F getall")
+				hist["op_reads_between_writes"]++
+			}
 		}
 		st.advance(encLen(klen, v, batch))
 	}
@@ -201,6 +209,12 @@ func GenFileScript(r *Rng, hist map[string]int) []string {
 	}
 	out = append(out, "F size", "F bytes", "F scan")
 	out = append(out, "F getall")
+	if r.Chance(1, 4) {
+		// two more data files are written by two goroutines at the same moment (Merge's output and the active file in
+		// the engine): nothing of one file's framing may leak into the other
+		out = append(out, fmt.Sprintf("F twofiles %d %d", 20+r.Intn(60), r.Intn(100000)))
+		hist["op_two_files_written_concurrently"]++
+	}
 	out = append(out, "F close")
 	out = append(out, fmt.Sprintf("F reopen %d", 1-io), "F scan", "F getall")
 	if r.Chance(1, 2) {
